@@ -151,6 +151,11 @@ def run_call(fn_obj, fn_ir, recipe, glb, script=None):
     out["log"] = list(glb["LOG"])
     out["watch"] = {k: nrepr(v) for k, v in watch.items()}
     out["globals"] = {k: nrepr(glb.get(k)) for k in ("G1", "G2")}
+    if "get_cl" in glb:
+        try:
+            out["globals"]["<closure>"] = nrepr(glb["get_cl"]())
+        except BaseException as e:  # noqa
+            out["globals"]["<closure>"] = "<error %s>" % type(e).__name__
     return out
 
 
